@@ -335,7 +335,15 @@ func run(c *hc.Ctx) error {
 		p2 := hc.Pick(r, 1, 1000, 1024, 2048, 3072, 4096, 65536, 131072, 262144, 524288, 1048576, r.Range(1, 1<<20))
 		line = fmt.Sprintf("parts %d %d", p2, total)
 		c.Count("arith.parts")
-		lines, impls, kinds = append(lines, line), append(impls, strconv.Itoa(uploader.VerifC32ComputeParts(p2, total))), append(kinds, "")
+		gotParts := uploader.VerifC32ComputeParts(p2, total)
+		wantParts := int64(0)
+		if total > 0 {
+			wantParts = (total + int64(p2) - 1) / int64(p2)
+		}
+		if int64(gotParts) != wantParts {
+			c.Fail("compute-parts", line, fmt.Sprintf("computeParts = %d, ⌈total/partSize⌉ = %d", gotParts, wantParts))
+		}
+		lines, impls, kinds = append(lines, line), append(impls, strconv.Itoa(gotParts)), append(kinds, "")
 		p3 := hc.Pick(r, 0, 1, 512, 1000, 1024, 2048, 3072, 5120, 131072, 262144, 524288, 524289, 1048576, r.Range(0, 1<<21), 1024*r.Range(0, 600))
 		line = fmt.Sprintf("check %d", p3)
 		c.Count("arith.check")
